@@ -195,7 +195,12 @@ func (e *Exec) builtin(st *State, b *ssa.Builtin, c *ssa.CallCommon, args []Val,
 			if x.Obj == 0 {
 				return e.F.IntConst(big.NewInt(0), types.Typ[types.Int])
 			}
-			return e.F.IntConst(big.NewInt(int64(len(st.Mem[x.Obj].(*MapData).Keys))), types.Typ[types.Int])
+			md := st.Mem[x.Obj].(*MapData)
+			cnt := e.S.Int(0)
+			for i := range md.Keys {
+				cnt = e.S.Add(cnt, e.S.Ite(e.pres(md, i), e.S.Int(1), e.S.Int(0)))
+			}
+			return e.F.FromIndexInt(cnt, types.Typ[types.Int])
 		case *Agg:
 			return e.F.IntConst(big.NewInt(int64(len(x.Elems))), types.Typ[types.Int])
 		case *Ptr:
@@ -257,11 +262,9 @@ func (e *Exec) builtin(st *State, b *ssa.Builtin, c *ssa.CallCommon, args []Val,
 			if eq.IsTrue() {
 				continue
 			}
-			if !eq.IsFalse() {
-				e.unsupported(st, "delete with symbolic key at "+where)
-			}
 			nd.Keys = append(nd.Keys, k)
 			nd.Vals = append(nd.Vals, md.Vals[i])
+			nd.Pres = append(nd.Pres, e.S.And(e.pres(md, i), e.S.Not(eq)))
 		}
 		st.Mem[mv.Obj] = nd
 		return nil
